@@ -100,7 +100,8 @@ Definition goodp (pm ps : Prop) (k : conn) : Prop :=
   (closed (c_m k) = true -> c_cut k = true \/ closed (c_s k) = true \/ has_fin (c_qms k) = true) /\
   (closed (c_s k) = true -> c_cut k = true \/ closed (c_m k) = true \/ has_fin (c_qsm k) = true) /\
   (has_fin (c_qms k) = true -> closed (c_m k) = true) /\
-  (has_fin (c_qsm k) = true -> closed (c_s k) = true).
+  (has_fin (c_qsm k) = true -> closed (c_s k) = true) /\
+  c_m k <> EDec.
 
 Lemma hf_app q m : has_fin (q ++ [m]) = (has_fin q || is_fin m)%bool.
 Proof. unfold has_fin. rewrite existsb_app. cbn. rewrite orb_false_r. reflexivity. Qed.
@@ -519,7 +520,7 @@ Proof.
       pose proof (drop_existing_m s0 I0) as (D1 & D2 & D3 & D4 & D5 & D6). cbv zeta in *.
       apply master_accept_inv; rewrite ?D3, ?D4; auto;
         try (rewrite (D6 c) by (rewrite Em0; discriminate); exact Em0).
-    + apply master_accept_inv; auto. rewrite <- Eb. exact Hb0.
+    + apply master_accept_inv; auto.
   - destruct (c_m (conns s c)) eqn:Em; try (apply H0; left; reflexivity). apply Hl; reflexivity.
   - destruct (c_m (conns s c)) eqn:Em; try (apply H0; left; reflexivity). apply Hl; reflexivity.
   - (* Fin *)
@@ -527,3 +528,264 @@ Proof.
     { apply conn_lost_inv_m; [exact H|destruct (conns s c); reflexivity|]. eapply goodp_lost_fin_m; [exact Eq|apply (proj1 H)]. }
     destruct (c_m (conns s c)) eqn:Em; try exact Hcl. apply H0. right. reflexivity.
 Qed.
+
+Lemma upd_c_inv c s k' :
+  inv s -> goodp (t_broker (tm s) = Some c) (t_broker (ts s) = Some c) k' -> inv (set_conns (upd (conns s) c k') s).
+Proof. intros [Hb Hbd] Hk. split; [|exact Hbd]. cbn [set_conns tm ts conns]. apply invb_upd; assumption. Qed.
+
+Lemma deliver_s_inv c s : c < nconn s -> inv s -> inv (deliver_s c s).
+Proof.
+  intros Hc H. unfold deliver_s. destruct (c_qms (conns s c)) as [|m q] eqn:Eq; [exact H|].
+  pose proof (proj1 H c) as Gc.
+  assert (Hidle : is_fin m = false -> negotiating (c_s (conns s c)) = false ->
+                  inv (set_conns (upd (conns s) c (pop_ms (conns s c))) s)).
+  { intros Hm Hn. apply upd_c_inv; [exact H|]. apply goodp_pop_ms_idle; [exists m, q; auto|exact Hn|exact Gc]. }
+  assert (Hl : negotiating (c_s (conns s c)) = true -> inv (set_conns (upd (conns s) c (lose TS (pop_ms (conns s c)))) s)).
+  { intros Hn. apply upd_c_inv; [exact H|]. apply goodp_lose_pop_s; [exact Hn|exact Gc]. }
+  destruct m as [inc last|inc seq| |].
+  - (* Hello *)
+    destruct (c_s (conns s c)) eqn:Es; try (apply Hidle; reflexivity); [|apply Hl; reflexivity].
+    apply upd_c_inv; [exact H|]. eapply goodp_hello_s; [exact Eq|exact Es|exact Gc].
+  - (* Decision *)
+    destruct (c_s (conns s c)) eqn:Es; try (apply Hidle; reflexivity); [apply Hl; reflexivity|].
+    pose proof (drop_existing_s s H) as (D1 & D2 & D3 & D4 & D5). cbv zeta in *.
+    assert (Ec : conns (drop_existing TS s) c = conns s c) by (apply D5; rewrite Es; discriminate).
+    apply attach_inv_s; cbn [tm ts conns nconn t_broker]; rewrite ?D3, ?D4; [|exact Hc|apply H].
+    apply invb_set_s; [exact D1|]. rewrite Ec. eapply goodp_dec_s; [exact Eq|exact Es|exact Gc].
+  - (* ErrorBlk *)
+    destruct (c_s (conns s c)) eqn:Es; try (apply Hidle; reflexivity); apply Hl; reflexivity.
+  - (* Fin *)
+    assert (Hcl : inv (conn_lost TS c pop_ms s)).
+    { apply conn_lost_inv_s; [exact H|destruct (conns s c); reflexivity|]. eapply goodp_lost_fin_s; [exact Eq|exact Gc]. }
+    destruct (c_s (conns s c)) eqn:Es; try exact Hcl.
+    apply upd_c_inv; [exact H|]. apply goodp_pop_ms_closed; [rewrite Es; reflexivity|exact Gc].
+Qed.
+
+Theorem step_inv s o : inv s -> inv (step s o).
+Proof.
+  intros H. destruct o as [x|x|c to|c x|c|x|x]; cbn [step].
+  - apply getref_inv, H.
+  - apply dial_inv, H.
+  - destruct to; destruct (Nat.ltb_spec c (nconn s)); try exact H; [apply deliver_m_inv|apply deliver_s_inv]; assumption.
+  - destruct (Nat.ltb_spec c (nconn s)); [apply closeseen_inv|]; exact H.
+  - destruct (Nat.ltb_spec c (nconn s)); [apply cut_inv|]; exact H.
+  - apply restart_inv, H.
+  - apply timeout_inv, H.
+Qed.
+
+Lemma fold_inv ops : forall s, inv s -> inv (fold_left step ops s).
+Proof. induction ops as [|o r IH]; intros s H; cbn [fold_left]; [exact H|apply IH, step_inv, H]. Qed.
+
+Theorem run_inv ops : inv (run ops).
+Proof. apply fold_inv, init_inv. Qed.
+
+(* ------------------------------------------------------------------------------------------ *)
+(* 4. agreement at quiescence                                                                  *)
+
+Lemma quiet_agree pm ps k : goodp pm ps k -> quiet_conn k = true -> (pm <-> ps).
+Proof.
+  destruct k as [cl g m s qms qsm cut]. unfold goodp, quiet_conn, close_pending. cbn.
+  destruct qms; [|discriminate]. destruct qsm; [|discriminate]. cbn.
+  intros (H1 & H2 & H3 & H4 & H5 & H6 & H7 & _ & _ & H10) Hq. apply andb_true_iff in Hq as [Qm Qs].
+  destruct m, s; cbn in *; try discriminate; destruct cut; cbn in *; try discriminate;
+    intuition (try congruence; try discriminate).
+Qed.
+
+Theorem agree_at_quiescence ops :
+  quiescent (run ops) ->
+  forall c, t_broker (tm (run ops)) = Some c <-> t_broker (ts (run ops)) = Some c.
+Proof.
+  intros Hq c. eapply quiet_agree; [apply (proj1 (run_inv ops) c)|apply Hq].
+Qed.
+
+(* corollaries: a broker registered in a Tub is the live end of its connection, and is unique *)
+Theorem broker_is_live_end ops c :
+  (t_broker (tm (run ops)) = Some c <-> c_m (conns (run ops) c) = EBrk) /\
+  (t_broker (ts (run ops)) = Some c <-> c_s (conns (run ops) c) = EBrk).
+Proof. destruct (proj1 (run_inv ops) c) as (H1 & H2 & _). split; assumption. Qed.
+
+(* the quiescence hypothesis is satisfiable with a shared connection: S dials, everything is delivered *)
+Example quiescent_connected :
+  let s := run [GetRef TS; DialHint TS; Deliver 0 TM; Deliver 0 TS; Deliver 0 TS] in
+  quiet_conn (conns s 0) = true /\ t_broker (tm s) = Some 0 /\ t_broker (ts s) = Some 0.
+Proof. vm_compute. auto. Qed.
+
+(* ... and after a cut seen by both ends: neither side has one *)
+Example quiescent_after_cut :
+  let s := run [GetRef TS; DialHint TS; Deliver 0 TM; Deliver 0 TS; Deliver 0 TS; Cut 0; CloseSeen 0 TM; CloseSeen 0 TS] in
+  quiet_conn (conns s 0) = true /\ t_broker (tm s) = None /\ t_broker (ts s) = None.
+Proof. vm_compute. auto. Qed.
+
+(* the flap found on the real code, in the model: M restarted, S (remembering M's past life) dials two hints;
+   M accepts both offers; S takes the first decision and cancels the second attempt: nobody is connected *)
+Example flap_after_master_restart :
+  let s := run [GetRef TS; DialHint TS; Deliver 0 TM; Deliver 0 TS; Deliver 0 TS;
+                Restart TM; CloseSeen 0 TS;
+                GetRef TS; DialHint TS; DialHint TS;
+                Deliver 1 TM; Deliver 2 TM;            (* both offers accepted: seqnum 2 *)
+                Deliver 1 TS; Deliver 1 TS;            (* S attaches link 1, cancels link 2 *)
+                Deliver 1 TS; Deliver 2 TM; CloseSeen 1 TM; CloseSeen 2 TS; Deliver 2 TS; Deliver 2 TS; Deliver 2 TS;
+                Deliver 1 TM] in
+  t_master (tm s) = 2%Z /\ t_broker (tm s) = None /\ t_broker (ts s) = None /\ t_fired (ts s) = 2 /\
+  forallb (fun i => quiet_conn (conns s i)) (seq 0 (nconn s)) = true.
+Proof. vm_compute. auto. Qed.
+
+(* ------------------------------------------------------------------------------------------ *)
+(* 5. lookups: every waiter is answered when the connector finishes                            *)
+
+Definition wgood (t : tub) : Prop :=
+  (t_waiters t <> 0 -> t_connector t <> None) /\
+  (t_broker t <> None -> t_waiters t = 0) /\
+  t_issued t = t_fired t + t_waiters t.
+Definition winv (s : state) : Prop := wgood (tm s) /\ wgood (ts s).
+
+Lemma wgood_gone t : wgood t -> wgood (connector_gone t).
+Proof.
+  destruct t as [a b c d e f g h w fi is]. unfold wgood, connector_gone. cbn. intros (H1 & H2 & H3).
+  destruct b; cbn; [|repeat split; try congruence; try lia].
+  assert (w = 0) by (apply H2; discriminate). subst. repeat split; auto; lia.
+Qed.
+Lemma wgood_attach t c : wgood t -> wgood (fire (set_broker (Some c) (set_connector None t))).
+Proof. destruct t as [a b c0 d e f g h w fi is]. unfold wgood. cbn. intros (H1 & H2 & H3). repeat split; auto; lia. Qed.
+Lemma wgood_nobroker t : wgood t -> wgood (set_broker None t).
+Proof. destruct t as [a b c0 d e f g h w fi is]. unfold wgood. cbn. intros (H1 & H2 & H3). repeat split; auto; congruence. Qed.
+Lemma wgood_ext t t' :
+  t_broker t' = t_broker t -> t_connector t' = t_connector t -> t_waiters t' = t_waiters t -> t_fired t' = t_fired t ->
+  t_issued t' = t_issued t -> wgood t -> wgood t'.
+Proof. unfold wgood. intros -> -> -> -> ->. auto. Qed.
+
+Lemma winv_set_tub x t s : winv s -> wgood t -> winv (set_tub x t s).
+Proof. intros [Hm Hs] Ht. destruct x; split; cbn; assumption. Qed.
+Lemma winv_tubof x s : winv s -> wgood (tubof x s).
+Proof. intros [Hm Hs]. destruct x; assumption. Qed.
+Lemma winv_conns f s : winv s -> winv (set_conns f s).
+Proof. auto. Qed.
+
+Lemma winv_connector_failed x g s : winv s -> winv (connector_failed x g s).
+Proof.
+  intros H. unfold connector_failed. destruct (t_connector (tubof x s)); [|exact H].
+  destruct (Nat.eqb g n && negb (any_pending x g s))%bool; [|exact H].
+  apply winv_set_tub; [exact H|apply wgood_gone, winv_tubof, H].
+Qed.
+
+Lemma winv_conn_lost x c pre s : winv s -> winv (conn_lost x c pre s).
+Proof.
+  intros H. unfold conn_lost.
+  set (s1 := set_conns (upd (conns s) c (set_end x ELost (pre (conns s c)))) s).
+  assert (H1 : winv s1) by exact H.
+  destruct (cend x (pre (conns s c))); try exact H1;
+    try (destruct (tub_eqb (c_client (pre (conns s c))) x); [apply winv_connector_failed|]; exact H1).
+  destruct (t_broker (tubof x s1)); [|exact H1]. destruct (Nat.eqb n c); [|exact H1].
+  apply winv_set_tub; [exact H1|apply wgood_nobroker, winv_tubof, H1].
+Qed.
+
+Lemma winv_drop x s : winv s -> winv (drop_existing x s).
+Proof.
+  intros H. unfold drop_existing. destruct (t_broker (tubof x s)); [|exact H].
+  apply winv_set_tub; [exact H|apply wgood_nobroker, winv_tubof, H].
+Qed.
+
+Lemma winv_attach x c s : winv s -> winv (attach x c s).
+Proof.
+  intros H. unfold attach.
+  match goal with |- winv (set_tub x _ ?s1) => assert (H1 : winv s1) end.
+  { destruct (tub_eqb (c_client (conns s c)) x); [exact H|]. destruct (t_connector (tubof x s)); exact H. }
+  apply winv_set_tub; [exact H1|apply wgood_attach, winv_tubof, H1].
+Qed.
+
+Lemma winv_master_accept c inc s : winv s -> winv (master_accept c inc s).
+Proof.
+  intros [Hm Hs]. unfold master_accept. apply winv_attach. split; cbn [tm ts]; [|exact Hs].
+  eapply wgood_ext; [| | | | |exact Hm]; reflexivity.
+Qed.
+
+Lemma winv_deliver_m c s : winv s -> winv (deliver_m c s).
+Proof.
+  intros H. unfold deliver_m. destruct (c_qsm (conns s c)) as [|m q]; [exact H|].
+  destruct m.
+  - destruct (c_m (conns s c)); try exact H.
+    match goal with |- context [t_broker (tm ?s0)] => assert (H0 : winv s0) by exact H end.
+    destruct (t_broker (tm _)).
+    + destruct (compare_offer _ _ _ _ _ _ _) as [[|]|]; try exact H0. apply winv_master_accept, winv_drop, H0.
+    + apply winv_master_accept, H0.
+  - destruct (c_m (conns s c)); exact H.
+  - destruct (c_m (conns s c)); exact H.
+  - destruct (c_m (conns s c)); try exact H; apply winv_conn_lost, H.
+Qed.
+
+Lemma winv_deliver_s c s : winv s -> winv (deliver_s c s).
+Proof.
+  intros H. unfold deliver_s. destruct (c_qms (conns s c)) as [|m q]; [exact H|].
+  destruct m.
+  - destruct (c_s (conns s c)); exact H.
+  - destruct (c_s (conns s c)); try exact H.
+    apply winv_attach. pose proof (winv_drop TS s H) as [Dm Ds]. split; cbn [tm ts]; [exact Dm|].
+    eapply wgood_ext; [| | | | |exact Ds]; reflexivity.
+  - destruct (c_s (conns s c)); exact H.
+  - destruct (c_s (conns s c)); try exact H; apply winv_conn_lost, H.
+Qed.
+
+Lemma winv_getref x s : winv s -> winv (do_getref x s).
+Proof.
+  intros H. pose proof (winv_tubof x s H) as (W1 & W2 & W3). unfold do_getref.
+  destruct (t_broker (tubof x s)) eqn:Eb.
+  - apply winv_set_tub; [exact H|]. unfold wgood. cbn [t_waiters t_connector t_broker t_issued t_fired]. repeat split; auto. lia.
+  - destruct (t_connector (tubof x s)) eqn:Ec; (apply winv_set_tub; [exact H|]); unfold wgood;
+      cbn [t_waiters t_connector t_broker t_issued t_fired];
+      repeat split; try congruence; try lia; try discriminate.
+Qed.
+
+Theorem step_winv s o : winv s -> winv (step s o).
+Proof.
+  intros H. destruct o as [x|x|c to|c x|c|x|x]; cbn [step].
+  - apply winv_getref, H.
+  - unfold do_dial. destruct (t_connector (tubof x s)); exact H.
+  - destruct to; destruct (Nat.ltb c (nconn s)); try exact H; [apply winv_deliver_m|apply winv_deliver_s]; exact H.
+  - destruct (Nat.ltb c (nconn s)); [|exact H]. unfold do_closeseen. destruct (close_pending x (conns s c)); [|exact H].
+    apply winv_conn_lost, H.
+  - destruct (Nat.ltb c (nconn s)); exact H.
+  - unfold do_restart. apply winv_set_tub; [exact H|]. unfold wgood, new_tub. cbn. repeat split; congruence.
+  - unfold do_timeout. destruct (t_connector (tubof x s)); [|exact H].
+    apply winv_set_tub; [exact H|]. apply wgood_gone. exact (winv_tubof x _ H).
+Qed.
+
+Theorem run_winv ops : winv (run ops).
+Proof.
+  unfold run. assert (G : forall l s, winv s -> winv (fold_left step l s)).
+  { induction l as [|o r IH]; intros s H; cbn [fold_left]; [exact H|apply IH, step_winv, H]. }
+  apply G. split; unfold wgood; cbn; repeat split; congruence.
+Qed.
+
+(* when the connector is gone (success, every attempt failed, or time-out) nobody is left waiting *)
+Theorem waiters_fire ops x : t_connector (tubof x (run ops)) = None -> t_waiters (tubof x (run ops)) = 0.
+Proof.
+  intros E. destruct (winv_tubof x _ (run_winv ops)) as (W1 & _).
+  destruct (t_waiters (tubof x (run ops))) eqn:Ew; [reflexivity|]. exfalso. apply W1; [discriminate|exact E].
+Qed.
+
+(* whoever waits has a live connector, i.e. an armed CONNECTION_TIMEOUT timer; when it fires all are answered *)
+Theorem timeout_answers_all ops x :
+  (t_waiters (tubof x (run ops)) <> 0 -> t_connector (tubof x (run ops)) <> None) /\
+  t_waiters (tubof x (step (run ops) (Timeout x))) = 0.
+Proof.
+  pose proof (winv_tubof x _ (run_winv ops)) as W. split; [apply W|].
+  pose proof (step_winv _ (Timeout x) (run_winv ops)) as W'. cbn [step] in *. unfold do_timeout in *.
+  destruct (t_connector (tubof x (run ops))) eqn:Ec.
+  - set (s1 := map_conns (cancel x n) (run ops)) in *.
+    assert (Et : tubof x (set_tub x (connector_gone (tubof x s1)) s1) = connector_gone (tubof x s1)) by (destruct x; reflexivity).
+    rewrite Et. assert (W1 : wgood (tubof x s1)) by (destruct x; exact W).
+    destruct (tubof x s1) as [a b c d e f g h w fi is]. unfold connector_gone. cbn.
+    destruct b; cbn; [|reflexivity]. apply W1. cbn. discriminate.
+  - destruct W as (W1 & _). destruct (t_waiters (tubof x (run ops))); [reflexivity|]. exfalso. apply W1; [discriminate|exact Ec].
+Qed.
+
+(* no lookup is lost or answered twice (counts): made = answered + still waiting; none waits while connected *)
+Theorem lookups_accounted ops x :
+  t_issued (tubof x (run ops)) = t_fired (tubof x (run ops)) + t_waiters (tubof x (run ops)) /\
+  (t_broker (tubof x (run ops)) <> None -> t_waiters (tubof x (run ops)) = 0).
+Proof. destruct (winv_tubof x _ (run_winv ops)) as (_ & W2 & W3). split; assumption. Qed.
+
+Example waiting_then_timeout :
+  let s := run [GetRef TM; DialHint TM; DialHint TM; GetRef TM] in
+  t_waiters (tm s) = 2 /\ t_waiters (tm (step s (Timeout TM))) = 0 /\ t_fired (tm (step s (Timeout TM))) = 2.
+Proof. vm_compute. auto. Qed.
